@@ -388,6 +388,32 @@ def _hash_like(ctx, fi: FunctionInfo, _seen=None) -> bool:
     return all(eng.fn_by_qual.get(q) is not None and _hash_like(ctx, eng.fn_by_qual[q], _seen) for q in callers)
 
 
+CORE_ENTRY_NAMES = {"intersection", "distance", "angle", "parallel", "orthogonal", "volume", "__contains__", "in_", "move", "length",
+                    "area", "height", "__init__", "segments", "__neg__", "get_circle_point_list", "Circle", "Sphere", "Cylinder", "Cone",
+                    "Parallelogram", "Parallelepiped", "general_form", "parametric", "pv", "__getitem__", "__setitem__", "acute"}
+
+
+def _core_reach(ctx) -> set:
+    """functions reached from the geometric entry points without passing through a hash / eq / repr method: the code whose
+    values go on into the geometry (a user-requested `Point.rounded(ndigits)` or a helper only the hashes call is not in it)"""
+    if "exact.core_reach" in ctx.cache:
+        return ctx.cache["exact.core_reach"]
+    eng = ctx.types
+    g = eng.call_graph()
+    todo = [f.qual for f in ctx.repo.functions(include_visualization=False) if f.name in CORE_ENTRY_NAMES and f.name not in HASH_ROOTS]
+    seen = set(todo)
+    while todo:
+        q = todo.pop()
+        for q2 in g.get(q, ()):
+            f2 = eng.fn_by_qual.get(q2)
+            if f2 is None or q2 in seen or f2.name in HASH_ROOTS:
+                continue
+            seen.add(q2)
+            todo.append(q2)
+    ctx.cache["exact.core_reach"] = seen
+    return seen
+
+
 def report_rounding(ctx, res, rule: str, functions, what: str) -> int:
     """`round(x, k)` of a coordinate-derived float outside the hash / repr methods: the value that goes on into the geometry is
     moved by up to 0.5 * 10**-k -- at the default k = 10 that is 5e-11, half the tolerance before any lever arm; multiplied by
@@ -396,7 +422,7 @@ def report_rounding(ctx, res, rule: str, functions, what: str) -> int:
     n = 0
     for fi in functions:
         n += 1
-        if _hash_like(ctx, fi):
+        if _hash_like(ctx, fi) or fi.qual not in _core_reach(ctx):
             continue
         for c in walk_local(fi.node):
             if not (isinstance(c, ast.Call) and isinstance(c.func, ast.Name) and c.func.id == "round" and fi.resolve("round") is None):
